@@ -160,7 +160,7 @@ example :
     let a : San := ⟨.dns, s "a.example.com", s "a.example.com"⟩
     let i : San := ⟨.ip, s "::ffff:10.0.0.1", s "10.0.0.1"⟩
     let g : Ext := ⟨0, [48, 0]⟩
-    sign ⟨.jwk, false, false, g⟩ ⟨a, [i, a], .absent, none, none⟩
+    sign ⟨.jwk, false, noClaims, noClaims, g⟩ ⟨a, [i, a], .absent, none, none, none, []⟩
       ⟨true, s "a.example.com", [s "a.example.com"], [s "10.0.0.1"], [], [], 1, true, []⟩ none ⟨true, true⟩
     = .issued ⟨s "a.example.com", [s "a.example.com"], [s "10.0.0.1"], [], [], 1, [g]⟩ := by decide
 
@@ -237,7 +237,7 @@ theorem issued_request_shape (cfg : Cfg) (t : Token) (c : CSR) (ud : Option User
   obtain ⟨hs, hv, _, _⟩ := sign_issued h
   have hcnf : (authorize cfg t).cnf = t.cnf := by rcases hp with h | h <;> simp [authorize, h]
   simp only [reqValid, hsans, hcnf, Bool.and_eq_true] at hv
-  obtain ⟨⟨⟨hfp, _⟩, hk⟩, hsv⟩ := hv
+  obtain ⟨⟨⟨⟨hfp, _⟩, hk⟩, hsv⟩, _⟩ := hv
   refine ⟨hs, hk, hfp, ?_⟩
   intro k
   simp only [sansValid, Bool.and_eq_true, kindValid, Bool.or_eq_true, List.isEmpty_iff] at hsv
@@ -251,7 +251,7 @@ theorem issued_request_shape (cfg : Cfg) (t : Token) (c : CSR) (ud : Option User
 /-- the refusal hypotheses are satisfiable: an extra DNS name next to the authorized one -/
 example :
     let a : San := ⟨.dns, s "a", s "a"⟩
-    sign ⟨.jwk, false, false, ⟨0, []⟩⟩ ⟨a, [a], .absent, none, none⟩
+    sign ⟨.jwk, false, noClaims, noClaims, ⟨0, []⟩⟩ ⟨a, [a], .absent, none, none, none, []⟩
       ⟨true, [], [s "a", s "b"], [], [], [], 1, true, []⟩ none ⟨true, true⟩ = .refused 403 := by decide
 
 /-! ## 3. oidc_nonadmin_names -/
@@ -284,7 +284,7 @@ example :
     let e : San := ⟨.email, s "a@example.com", s "a@example.com"⟩
     let u : San := ⟨.uri, s "https://idp#1", s "https://idp#1"⟩
     let g : Ext := ⟨0, [48, 0]⟩
-    sign ⟨.oidc false, false, false, g⟩ ⟨⟨.dns, s "1", s "1"⟩, [], .absent, some e, some u⟩
+    sign ⟨.oidc false, false, noClaims, noClaims, g⟩ ⟨⟨.dns, s "1", s "1"⟩, [], .absent, some e, some u, none, []⟩
       ⟨true, s "evil", [s "evil.example.com"], [], [], [], 1, true, []⟩ none ⟨true, true⟩
     = .issued ⟨s "1", [], [], [s "a@example.com"], [s "https://idp#1"], 1, [g]⟩ := by decide
 
@@ -383,7 +383,64 @@ theorem ext_disabled_absent (cfg : Cfg) (t : Token) (c : CSR) (ud : Option UserD
     | jwk => simp [authorize, hp, ht]
     | x5c => simp [authorize, hp, ht]
     | oidc a => cases a <;> simp [authorize, hp, ht]
+    | nebula => simp [authorize, hp, ht]
+    | k8ssa => simp [authorize, hp, ht]
   rcases this with h1 | h1 <;> simp [finalCert, modifyExt, hd, applyTemplate, h1, applyLeaf, applyAdmin]
+
+/-- **extDisabled_iff.** The extension is disabled exactly when the *effective*
+    `disableSmallstepExtensions` claim is true: the provisioner's own value if it has one, else the
+    authority-level value, else false. -/
+theorem extDisabled_iff (cfg : Cfg) :
+    cfg.extDisabled = true ↔
+      cfg.provClaims.disableExt = some true ∨
+      (cfg.provClaims.disableExt = none ∧ cfg.authClaims.disableExt = some true) := by
+  unfold Cfg.extDisabled effClaim
+  cases cfg.provClaims.disableExt with
+  | some b => cases b <;> simp
+  | none =>
+    cases cfg.authClaims.disableExt with
+    | some b => cases b <;> simp
+    | none => simp
+
+/-- **ext_once_claims.** `ext_once` in terms of the configuration: unless the provisioner sets
+    `disableSmallstepExtensions: true`, or leaves it unset while the authority sets it to true, every
+    issued certificate carries exactly one, genuine, provisioner extension — whatever the other
+    boolean claims (`disableRenewal`, `allowRenewalAfterExpiry`) are at either level. -/
+theorem ext_once_claims (cfg : Cfg) (t : Token) (c : CSR) (ud : Option UserData) (enc : Enc) (crt : Cert)
+    (hg : cfg.gen.isProv = true)
+    (hc : cfg.provClaims.disableExt = some false ∨
+          (cfg.provClaims.disableExt = none ∧ cfg.authClaims.disableExt ≠ some true))
+    (h : sign cfg t c ud enc = .issued crt) :
+    crt.exts.filter Ext.isProv = [cfg.gen] := by
+  apply ext_once cfg t c ud enc crt hg _ h
+  cases hd : cfg.extDisabled with
+  | false => rfl
+  | true =>
+    rcases (extDisabled_iff cfg).mp hd with h1 | ⟨h1, h2⟩
+    · rcases hc with hc | ⟨hc, _⟩ <;> rw [h1] at hc <;> cases hc
+    · rcases hc with hc | ⟨_, hc⟩
+      · rw [h1] at hc; cases hc
+      · exact absurd h2 hc
+
+/-- the claims that are not `disableSmallstepExtensions` never influence a sign request -/
+theorem other_claims_irrelevant (cfg : Cfg) (a b a' b' : Option Bool) (t : Token) (c : CSR)
+    (ud : Option UserData) (enc : Enc) :
+    sign { cfg with authClaims := ⟨a, cfg.authClaims.disableExt, b⟩,
+                    provClaims := ⟨a', cfg.provClaims.disableExt, b'⟩ } t c ud enc
+    = sign cfg t c ud enc := by
+  rfl
+
+/-- authority-level `disableRenewal: true` alone does not remove the extension; authority-level
+    `disableSmallstepExtensions: true` does, unless the provisioner says false -/
+example :
+    let tok : Token := ⟨⟨.dns, s "a", s "a"⟩, [], .absent, none, none, none, []⟩
+    let csr : CSR := ⟨true, [], [], [], [], [], 1, true, []⟩
+    sign ⟨.jwk, false, ⟨some true, none, none⟩, noClaims, ⟨0, [1]⟩⟩ tok csr none ⟨true, true⟩
+      = .issued ⟨s "a", [s "a"], [], [], [], 1, [⟨0, [1]⟩]⟩ ∧
+    sign ⟨.jwk, false, ⟨none, some true, none⟩, noClaims, ⟨0, [1]⟩⟩ tok csr none ⟨true, true⟩
+      = .issued ⟨s "a", [s "a"], [], [], [], 1, []⟩ ∧
+    sign ⟨.jwk, false, ⟨none, some true, none⟩, ⟨none, some false, none⟩, ⟨0, [1]⟩⟩ tok csr none ⟨true, true⟩
+      = .issued ⟨s "a", [s "a"], [], [], [], 1, [⟨0, [1]⟩]⟩ := by decide
 
 /-- a forged extension in front of and behind another one: replaced, the rest refused as duplicate -/
 example : modifyExt false ⟨0, [1]⟩ [⟨1, [9]⟩, ⟨0, [66]⟩, ⟨2, [9]⟩] = [⟨1, [9]⟩, ⟨0, [1]⟩, ⟨2, [9]⟩] := by decide
@@ -406,9 +463,156 @@ theorem csr_ext_unreachable (cfg : Cfg) (t : Token) (c : CSR) (e : List Ext) (ud
   cases (authorize cfg t).tpl <;> rfl
 
 example :
-    sign ⟨.jwk, false, false, ⟨0, [1]⟩⟩ ⟨⟨.dns, s "a", s "a"⟩, [], .absent, none, none⟩
+    sign ⟨.jwk, false, noClaims, noClaims, ⟨0, [1]⟩⟩ ⟨⟨.dns, s "a", s "a"⟩, [], .absent, none, none, none, []⟩
       ⟨true, [], [], [], [], [], 1, true, [⟨0, [66]⟩]⟩ (some ⟨[⟨0, [67]⟩], 5⟩) ⟨true, true⟩
     = .issued ⟨s "a", [s "a"], [], [], [], 1, [⟨0, [1]⟩]⟩ := by decide
+
+/-! ## 6. the source-derived tables and the model -/
+
+/-- **sign_phases_in_source.** The phases of `sign`, in the model's order, are realised by calls
+    and loops that occur in that order in `Authority.signX509` as it stands in the source (the
+    harness re-derives `signX509Source` with go/ast on every run). In particular the request
+    validators run inside the option loop, before `NewCertificate`; the modifiers (provisioner
+    extension) run after the template and before the CAS signs. -/
+theorem sign_phases_in_source :
+    (signPhases.flatMap Phase.marker).isSublist signX509Source = true := by decide
+
+/-- in the type switch the request-validator case precedes nothing that could capture a validator
+    first: an option is tried as provisioner, then as template options, then as request validator -/
+theorem request_validator_case_position :
+    signX509Source.take 7 =
+      [.checkSignature, .rangeExtraOpts, .caseInterface, .caseCertificateOptions, .options,
+       .caseRequestValidator, .valid] := by decide
+
+/-- **phase_order.** `sign` behaves in that order: a broken CSR signature is answered 400 whatever
+    the validators would say; a validator refusal is answered 403 whatever the template, the
+    encoder or the extension list would do; and the extension modifier is applied to the
+    template's output. -/
+theorem phase_order (cfg : Cfg) (t : Token) (c : CSR) (ud : Option UserData) (enc : Enc) :
+    (c.sigOK = false → sign cfg t c ud enc = .refused 400) ∧
+    (c.sigOK = true → reqValid (authorize cfg t) c = false → sign cfg t c ud enc = .refused 403) ∧
+    (∀ crt, sign cfg t c ud enc = .issued crt →
+       crt.exts = modifyExt cfg.extDisabled cfg.gen
+         (applyTemplate (authorize cfg t) c (templateUser cfg ud)).exts) := by
+  refine ⟨fun h => by simp [sign, h], fun h1 h2 => by simp [sign, h1, h2], ?_⟩
+  intro crt h
+  obtain ⟨_, _, _, rfl⟩ := sign_issued h
+  rfl
+
+/-- **options_match_plan.** What `authorize` puts into the plan is exactly what the option lists in
+    jwk.go / x5c.go / oidc.go contain (tables re-derived from the source on every run): the SAN
+    validator, the common-name validator and its flavour, the fingerprint validator; and every
+    list carries the provisioner-extension modifier, the template options and the key validator. -/
+theorem options_match_plan (cfg : Cfg) (t : Token) :
+    (.sans ∈ optionSource cfg.prov ↔ (authorize cfg t).sans = some (effSans t)) ∧
+    (.sans ∉ optionSource cfg.prov ↔ (authorize cfg t).sans = none) ∧
+    (.cnSlice ∈ optionSource cfg.prov ↔
+        (authorize cfg t).cnRule = .oneOf (t.sub.raw :: (effSans t).map (·.raw))) ∧
+    (.cnExact ∈ optionSource cfg.prov ↔ (authorize cfg t).cnRule = .exactly t.sub.raw) ∧
+    (.fingerprint ∈ optionSource cfg.prov → (authorize cfg t).cnf = t.cnf) ∧
+    (.fingerprint ∉ optionSource cfg.prov → (authorize cfg t).cnf = .absent) ∧
+    (.nebulaSans ∈ optionSource cfg.prov ↔ (authorize cfg t).neb.isSome = true) ∧
+    .provExt ∈ optionSource cfg.prov ∧ .templateOptions ∈ optionSource cfg.prov ∧
+    .pubKey ∈ optionSource cfg.prov := by
+  cases hp : cfg.prov with
+  | jwk => simp [authorize, hp, optionSource]
+  | x5c => simp [authorize, hp, optionSource]
+  | oidc a => simp [authorize, hp, optionSource]
+  | nebula => simp [authorize, hp, optionSource]
+  | k8ssa => simp [authorize, hp, optionSource]
+
+/-! ## 7. Nebula and K8sSA -/
+
+theorem ofKind_append (k : Kind) (a b : List San) : ofKind k (a ++ b) = ofKind k a ++ ofKind k b := by
+  simp [ofKind]
+
+theorem ofKind_ip_map (l : List Str) : ofKind .ip (l.map fun ip => (⟨.ip, ip, ip⟩ : San)) = l := by
+  induction l with
+  | nil => rfl
+  | cons a as ih => simp only [ofKind] at ih ⊢; simp [ih]
+
+/-- **nebula_default_names.** Nebula token that lists no names: the certificate's names are the
+    Nebula certificate's name and addresses, CN = token subject, key = CSR key. -/
+theorem nebula_default_names (cfg : Cfg) (t : Token) (c : CSR) (ud : Option UserData) (enc : Enc) (crt : Cert)
+    (hp : cfg.prov = .nebula) (hs : t.sans = [])
+    (h : sign cfg t c ud enc = .issued crt) :
+    crt.names = createSANs (nebCreds t) ∧ crt.cn = t.sub.raw ∧ crt.key = c.key := by
+  obtain ⟨_, _, _, rfl⟩ := sign_issued h
+  have h1 : (authorize cfg t).data.sans = createSANs (nebCreds t) := by simp [authorize, hp, hs]
+  have h2 : (authorize cfg t).data.cn = t.sub.raw := by simp [authorize, hp]
+  have h3 : (authorize cfg t).tpl ≠ .admin := by simp only [authorize, hp]; split <;> simp
+  have := finalCert_leafish cfg (authorize cfg t) c (templateUser cfg ud) (nebCreds t) h1 h3
+  rw [h2] at this
+  exact this
+
+/-- **nebula_csr_extra_refused.** A CSR name of any kind that the Nebula certificate does not
+    certify (its name, classified, or one of its addresses) is refused. -/
+theorem nebula_csr_extra_refused (cfg : Cfg) (t : Token) (c : CSR) (ud : Option UserData) (enc : Enc)
+    (hp : cfg.prov = .nebula) (k : Kind) (v : Str) (hv : v ∈ c.ofKind k) (hn : v ∉ ofKind k (nebCreds t)) :
+    ∃ st, sign cfg t c ud enc = .refused st := by
+  apply refused_of_reqValid_false
+  have hneb : (authorize cfg t).neb = some (t.nebName.toList, t.nebIPs) := by
+    simp [authorize, hp]
+  rw [nebCreds, ofKind_append, List.mem_append, not_or] at hn
+  obtain ⟨hn1, hn2⟩ := hn
+  have hne : c.ofKind k ≠ [] := List.ne_nil_of_mem hv
+  have : nebValid t.nebName.toList t.nebIPs c = false := by
+    unfold nebValid
+    cases k with
+    | dns =>
+      have h0 : c.dns.isEmpty = false := by simpa [CSR.ofKind] using hne
+      have := setEq_false_of_extra (ofKind .dns t.nebName.toList) c.dns v hv hn1
+      simp [h0, this]
+    | email =>
+      have h0 : c.emails.isEmpty = false := by simpa [CSR.ofKind] using hne
+      have := setEq_false_of_extra (ofKind .email t.nebName.toList) c.emails v hv hn1
+      simp [h0, this]
+    | uri =>
+      have h0 : c.uris.isEmpty = false := by simpa [CSR.ofKind] using hne
+      have := setEq_false_of_extra (ofKind .uri t.nebName.toList) c.uris v hv hn1
+      simp [h0, this]
+    | ip =>
+      rw [ofKind_ip_map] at hn2
+      have : c.ips.all (fun ip => (ofKind .ip t.nebName.toList ++ t.nebIPs).contains ip) = false := by
+        rw [List.all_eq_false]
+        exact ⟨v, hv, by simp [hn1, hn2]⟩
+      rw [this]; simp
+  simp [reqValid, hneb, this]
+
+/-- **nebula_token_names_unchecked** (refutation of "the certificate names what the credential
+    authorized" for Nebula): `Nebula.AuthorizeSign` takes the `sans` and `sub` claims of the token —
+    which the *holder of a Nebula host certificate* signs, not the Nebula CA — as they are;
+    `nebulaSANsValidator` only compares the CSR with the Nebula certificate. A token that lists
+    foreign names together with a CSR that lists none is issued a certificate for those names. -/
+theorem nebula_token_names_unchecked :
+    ∃ (cfg : Cfg) (t : Token) (c : CSR) (crt : Cert),
+      cfg.prov = .nebula ∧ cfg.hasTemplate = false ∧ sign cfg t c none ⟨true, true⟩ = .issued crt ∧
+      (∃ n ∈ crt.dns, n ∉ ofKind .dns (nebCreds t)) ∧ (∃ n ∈ crt.ips, n ∉ ofKind .ip (nebCreds t)) ∧
+      some crt.cn ≠ t.nebName.map (·.raw) :=
+  ⟨⟨.nebula, false, noClaims, noClaims, ⟨0, [1]⟩⟩,
+   ⟨⟨.dns, s "evil", s "evil"⟩, [⟨.dns, s "evil.example.com", s "evil.example.com"⟩, ⟨.ip, s "8.8.8.8", s "8.8.8.8"⟩],
+     .absent, none, none, some ⟨.dns, s "host-a.neb", s "host-a.neb"⟩, [s "10.1.1.7"]⟩,
+   ⟨true, [], [], [], [], [], 1, true, []⟩,
+   ⟨s "evil", [s "evil.example.com"], [s "8.8.8.8"], [], [], 1, [⟨0, [1]⟩]⟩,
+   rfl, rfl, by decide, by decide, by decide, by decide⟩
+
+/-- the same Nebula certificate without a `sans` claim: only its own name and address -/
+example :
+    sign ⟨.nebula, false, noClaims, noClaims, ⟨0, [1]⟩⟩
+      ⟨⟨.dns, s "host-a.neb", s "host-a.neb"⟩, [], .absent, none, none, some ⟨.dns, s "host-a.neb", s "host-a.neb"⟩, [s "10.1.1.7"]⟩
+      ⟨true, s "host-a.neb", [s "host-a.neb"], [s "10.1.1.7"], [], [], 1, true, []⟩ none ⟨true, true⟩
+    = .issued ⟨s "host-a.neb", [s "host-a.neb"], [s "10.1.1.7"], [], [], 1, [⟨0, [1]⟩]⟩ := by decide
+
+/-- **k8ssa_names_from_request.** Kubernetes service-account tokens carry no names: with the
+    default (request) template the certificate's names, common name and key are the CSR's. The
+    property's "names listed in the token" does not apply to this provisioner; recorded as a fact. -/
+theorem k8ssa_names_from_request (cfg : Cfg) (t : Token) (c : CSR) (ud : Option UserData) (enc : Enc) (crt : Cert)
+    (hp : cfg.prov = .k8ssa) (ht : cfg.hasTemplate = false)
+    (h : sign cfg t c ud enc = .issued crt) :
+    crt.dns = c.dns ∧ crt.ips = c.ips ∧ crt.emails = c.emails ∧ crt.uris = c.uris ∧
+    crt.cn = c.cn ∧ crt.key = c.key := by
+  obtain ⟨_, _, _, rfl⟩ := sign_issued h
+  simp [finalCert, authorize, hp, ht, applyTemplate, applyAdmin]
 
 /-! ## further examples: the hypotheses of the theorems above are satisfiable -/
 
@@ -416,14 +620,14 @@ example :
 example :
     let a : San := ⟨.dns, s "a", s "a"⟩
     let b : San := ⟨.dns, s "b", s "b"⟩
-    sign ⟨.x5c, false, false, ⟨0, []⟩⟩ ⟨a, [a, b], .absent, none, none⟩
+    sign ⟨.x5c, false, noClaims, noClaims, ⟨0, []⟩⟩ ⟨a, [a, b], .absent, none, none, none, []⟩
       ⟨true, [], [s "a"], [], [], [], 1, true, []⟩ none ⟨true, true⟩ = .refused 403 := by decide
 
 /-- …while a CSR without any DNS name is accepted and gets both -/
 example :
     let a : San := ⟨.dns, s "a", s "a"⟩
     let b : San := ⟨.dns, s "b", s "b"⟩
-    sign ⟨.x5c, false, false, ⟨0, []⟩⟩ ⟨a, [a, b], .absent, none, none⟩
+    sign ⟨.x5c, false, noClaims, noClaims, ⟨0, []⟩⟩ ⟨a, [a, b], .absent, none, none, none, []⟩
       ⟨true, [], [], [], [], [], 1, true, []⟩ none ⟨true, true⟩
     = .issued ⟨s "a", [s "a", s "b"], [], [], [], 1, [⟨0, []⟩]⟩ := by decide
 
@@ -432,21 +636,21 @@ example :
 example :
     let a : San := ⟨.dns, s "a", s "a"⟩
     let b : San := ⟨.dns, s "b", s "b"⟩
-    sign ⟨.x5c, false, false, ⟨0, []⟩⟩ ⟨a, [a, b], .absent, none, none⟩
+    sign ⟨.x5c, false, noClaims, noClaims, ⟨0, []⟩⟩ ⟨a, [a, b], .absent, none, none, none, []⟩
       ⟨true, s "b", [], [], [], [], 1, true, []⟩ none ⟨true, true⟩ = .refused 403 ∧
-    sign ⟨.jwk, false, false, ⟨0, []⟩⟩ ⟨a, [a, b], .absent, none, none⟩
+    sign ⟨.jwk, false, noClaims, noClaims, ⟨0, []⟩⟩ ⟨a, [a, b], .absent, none, none, none, []⟩
       ⟨true, s "b", [], [], [], [], 1, true, []⟩ none ⟨true, true⟩
     = .issued ⟨s "a", [s "a", s "b"], [], [], [], 1, [⟨0, []⟩]⟩ := by decide
 
 /-- ext_disabled_absent: hypotheses satisfiable -/
 example :
-    sign ⟨.jwk, false, true, ⟨0, [1]⟩⟩ ⟨⟨.dns, s "a", s "a"⟩, [], .absent, none, none⟩
+    sign ⟨.jwk, false, noClaims, ⟨none, some true, none⟩, ⟨0, [1]⟩⟩ ⟨⟨.dns, s "a", s "a"⟩, [], .absent, none, none, none, []⟩
       ⟨true, [], [], [], [], [], 1, true, [⟨0, [66]⟩]⟩ (some ⟨[⟨0, [67]⟩], 5⟩) ⟨true, true⟩
     = .issued ⟨s "a", [s "a"], [], [], [], 1, []⟩ := by decide
 
 /-- ext_once with a template that echoes user extensions: forged extension replaced in place -/
 example :
-    sign ⟨.jwk, true, false, ⟨0, [1]⟩⟩ ⟨⟨.dns, s "a", s "a"⟩, [], .absent, none, none⟩
+    sign ⟨.jwk, true, noClaims, noClaims, ⟨0, [1]⟩⟩ ⟨⟨.dns, s "a", s "a"⟩, [], .absent, none, none, none, []⟩
       ⟨true, [], [], [], [], [], 1, true, []⟩ (some ⟨[⟨3, [9]⟩, ⟨0, [67]⟩], 5⟩) ⟨true, true⟩
     = .issued ⟨s "a", [s "a"], [], [], [], 1, [⟨3, [9]⟩, ⟨0, [1]⟩]⟩ := by decide
 end Verif.SignNames
